@@ -566,6 +566,8 @@ func runC14(c *Ctx) {
 		c14NoAppendToInput(c, p)
 		c14CacheCoherence(c, p)
 		runReaderFields(c, p)
+		c16EffectiveLimits(c, p)
+		runMonotoneFlags(c, p, "mux", "internal/container", "animation", "")
 		before := c.Count("R1-advance")
 		checkReaders(c, p, "mux", readerFile, max)
 		checkReaders(c, p, "internal/container", readerFile, max)
